@@ -130,3 +130,13 @@ Arguments pk_in {St} _.
 (* runsIterator.curr / runsStream.curr: nil, or the inner run handed out last:
    (prev, parent != nil) *)
 Definition runcur : Type := option (Z * bool).
+
+(* fuel weight of the peeked item of a Runs state: 1 if it belongs to the run being handed out
+   (it only has to be drained), 2 if it will start a new run *)
+Definition runs_w (r : rel) (cur : runcur) (has : bool) (curr : Z) : nat :=
+  if has
+  then match cur with
+       | Some (prev, true) => if rel_eval r prev curr then 1%nat else 2%nat
+       | _ => 2%nat
+       end
+  else 0%nat.
